@@ -6,8 +6,18 @@ package main
 // behind such a send on the write lock / in the async queue, mid-block, awaiting the reply — by a Close() or by the
 // peer dropping the line.  Every pending send must return within a bound, and nothing of a dead generation may be
 // transmitted on the next one.
+//
+// Point "yield" (host role = slave on the line): the peer (equipment = master) answers the ENQ of the host's send with
+// its own ENQ; the host yields (EOT), takes the master's block and — this is the point — delivers the message that
+// block completes to the application's handler INLINE, from inside its own outbound send (sendBlock -> deliver).  The
+// handler blocks; the line engine therefore cannot report anything about the pending send.  Then the generation ends.
+// The pending Write (and every sender queued behind it on the generation's write lock / async queue) must still be
+// released by the generation's teardown broadcast: on Close() promptly (far sooner than the handler returns), on a
+// peer drop (which the library can only notice once the handler has returned) promptly after the handler's return.
+// A failing scenario is run a second time with every duration scaled before anything is reported.
 
 import (
+	"bytes"
 	"context"
 	"errors"
 	"fmt"
@@ -16,6 +26,7 @@ import (
 	"time"
 
 	"github.com/arloliu/go-secs/v2/hsms"
+	"github.com/arloliu/go-secs/v2/logger"
 	"github.com/arloliu/go-secs/v2/secs1"
 	"github.com/arloliu/go-secs/v2/secs2"
 )
@@ -33,7 +44,11 @@ type c09S1 struct {
 	gens    []*c09S1Gen
 	entered chan struct{}
 	handler time.Duration
+	release chan struct{} // closed: the blocking handler returns early
+	relOnce sync.Once
 }
+
+func (e *c09S1) releaseHandler() { e.relOnce.Do(func() { close(e.release) }) }
 
 func (e *c09S1) gen(i int) *c09S1Gen {
 	e.mu.Lock()
@@ -52,11 +67,11 @@ func (e *c09S1) numGens() int {
 
 const c09S1Dev = 7
 
-func c09NewS1(handler, t3 time.Duration) (*c09S1, error) {
+func c09NewS1(handler, t3 time.Duration, lg ...logger.Logger) (*c09S1, error) {
 	if t3 == 0 {
 		t3 = 4 * time.Second
 	}
-	e := &c09S1{entered: make(chan struct{}, 4), handler: handler}
+	e := &c09S1{entered: make(chan struct{}, 4), handler: handler, release: make(chan struct{})}
 	dial := func(_ context.Context, _, _ string) (net.Conn, error) {
 		a, b := net.Pipe()
 		g := &c09S1Gen{conn: b, dialT: time.Now()}
@@ -74,6 +89,13 @@ func c09NewS1(handler, t3 time.Duration) (*c09S1, error) {
 	if err != nil {
 		return nil, err
 	}
+	if len(lg) > 0 && lg[0] != nil {
+		// the application's own logger, with per-frame tracing: "hsms: trace: sent frame" is emitted after the transport
+		// Write returned (every block ACKed on the line) and before the reply wait is entered
+		if err := cfg.ApplyOptions(co(hsms.WithLogger(lg[0])), co(hsms.WithTraceTraffic(true))); err != nil {
+			return nil, err
+		}
+	}
 	conn, err := secs1.New(cfg)
 	if err != nil {
 		return nil, err
@@ -85,7 +107,10 @@ func c09NewS1(handler, t3 time.Duration) (*c09S1, error) {
 			case e.entered <- struct{}{}:
 			default:
 			}
-			time.Sleep(e.handler) // inline on the line engine: a slow application callback
+			select { // inline on the line engine: a slow application callback
+			case <-time.After(e.handler):
+			case <-e.release:
+			}
 		}
 	})
 	ctx, cancel := context.WithTimeout(context.Background(), 10*time.Second)
@@ -118,11 +143,45 @@ func c09S1Tags(p *s1RawPeer) []int64 {
 
 type c09S1Spec struct {
 	Name    string        `json:"name"`
-	Point   string        `json:"point"`   // handoff (engine busy in a handler) | awaiting (reply withheld) | midblock
+	Point   string        `json:"point"`   // handoff (engine busy in a handler) | awaiting (reply withheld) | midblock | yield (handler runs inside the send)
 	Trigger string        `json:"trigger"` // close | peerdrop
 	Handler time.Duration `json:"handler"`
 	Sync    int           `json:"sync"`
 	Async   int           `json:"async"`
+	YieldAt int           `json:"yield_at,omitempty"` // yield: the peer contends on the ENQ of this block of the first send (1 = single-block send; 2 = second block of a two-block send)
+	Bound   time.Duration `json:"bound,omitempty"`    // "promptly" (0 = 1.5 s)
+	T3      time.Duration `json:"t3,omitempty"`       // 0 = 4 s
+}
+
+type c09S1Viol struct {
+	kind, what, detail string
+	replay             any
+}
+
+// c09S1Contend plays the contending master: it lets the first atBlock-1 blocks of the host's send through, answers the
+// ENQ of block atBlock with its own ENQ, takes the host's EOT (the yield) and sends wire; it returns the host's answer.
+func c09S1Contend(p *s1RawPeer, wire []byte, atBlock int) byte {
+	waitENQ := func() bool {
+		deadline := time.Now().Add(5 * time.Second)
+		for time.Now().Before(deadline) {
+			if b, ok := p.readByte(50 * time.Millisecond); ok && b == 0x05 {
+				return true
+			}
+		}
+		return false
+	}
+	for b := 1; b < atBlock; b++ {
+		if !waitENQ() {
+			return 0
+		}
+		if _, ok := p.grantAndReceive(); !ok {
+			return 0
+		}
+	}
+	if !waitENQ() {
+		return 0
+	}
+	return p.sendWire(wire) // a master ignores the slave's ENQ: ENQ, wait for the EOT, block, answer
 }
 
 type c09S1Call struct {
@@ -136,10 +195,23 @@ type c09S1Call struct {
 	done    bool
 }
 
-func c09RunS1(c *Ctx, sp c09S1Spec) {
-	e, err := c09NewS1(sp.Handler, 0)
+// c09RunS1 runs one scenario and returns what its oracles found (the caller decides about a scaled re-run).
+func c09RunS1(c *Ctx, sp c09S1Spec) (viols []c09S1Viol) {
+	violate := func(kind, what, detail string, replay any) { viols = append(viols, c09S1Viol{kind, what, detail, replay}) }
+	prompt := sp.Bound
+	if prompt == 0 {
+		prompt = 1500 * time.Millisecond
+	}
+	var lg *c09ParkLogger
+	var lgs []logger.Logger
+	if sp.Point == "afterwrite" {
+		lg = newC09ParkLogger()
+		lgs = append(lgs, lg)
+		defer lg.release()
+	}
+	e, err := c09NewS1(sp.Handler, sp.T3, lgs...)
 	if err != nil {
-		c.Violate("correspondence", "scenario-did-not-start", "secs1: "+err.Error(), map[string]any{"spec": sp})
+		violate("correspondence", "scenario-did-not-start", "secs1: "+err.Error(), map[string]any{"spec": sp})
 		return
 	}
 	g0 := e.gen(0)
@@ -195,7 +267,10 @@ func c09RunS1(c *Ctx, sp c09S1Spec) {
 				defer wg.Done()
 				time.Sleep(time.Duration(i) * time.Millisecond)
 				var r rCallResult
-				item := secs2.NewUintItem(4, uint32(i))
+				var item secs2.Item = secs2.NewUintItem(4, uint32(i))
+				if i == 0 && sp.YieldAt > 1 {
+					item = secs2.NewBinaryItem(bytes.Repeat([]byte{0x5a}, 244*(sp.YieldAt-1)+20)) // a multi-block message
+				}
 				if kind == "s" {
 					reply, err := e.conn.SendDataMessage(context.Background(), 1, byte(1+2*i), true, item)
 					rClassify(reply, err, &r)
@@ -217,12 +292,12 @@ func c09RunS1(c *Ctx, sp c09S1Spec) {
 		// occupy the line engine with an inline application handler, THEN start the sends: the first one parks at the
 		// hand-off to the engine, the others behind it on the write lock / in the async queue
 		if ans := g0.peer.sendWire(c09S1Inbound(77, 1, 0x70000001)); ans != 0x06 {
-			c.Violate("correspondence", "scenario-incomplete", fmt.Sprintf("secs1: the trigger block was answered %#02x", ans), replay)
+			violate("correspondence", "scenario-incomplete", fmt.Sprintf("secs1: the trigger block was answered %#02x", ans), replay)
 		}
 		select {
 		case <-e.entered:
 		case <-time.After(5 * time.Second):
-			c.Violate("correspondence", "scenario-incomplete", "secs1: the slow handler was never entered", replay)
+			violate("correspondence", "scenario-incomplete", "secs1: the slow handler was never entered", replay)
 		}
 		serve(g0, false)
 		launch()
@@ -239,6 +314,38 @@ func c09RunS1(c *Ctx, sp c09S1Spec) {
 		serve(g0, true)
 		launch()
 		time.Sleep(30 * time.Millisecond)
+	case "afterwrite":
+		// the first send is held by the application's trace logger AFTER its Write returned (its block is ACKed on the
+		// line) and BEFORE it enters the reply wait — holding the generation's write lock, so the others queue behind it
+		serve(g0, false)
+		lg.arm(1, func(f rFrame) bool { return f.IsData() && f.Tag == 0 })
+		launch()
+		select {
+		case <-lg.hit:
+		case <-time.After(5 * time.Second):
+			violate("correspondence", "scenario-incomplete", "secs1: the first sender never reached the trace call after its Write", replay)
+		}
+		time.Sleep(20 * time.Millisecond)
+	case "yield":
+		// the first send's ENQ is answered with the master's ENQ: the host yields and runs the handler of the message it
+		// receives INSIDE its own send; the other senders queue behind that send (write lock / async queue)
+		launch()
+		if ans := c09S1Contend(g0.peer, c09S1Inbound(77, 1, 0x70000002), max(sp.YieldAt, 1)); ans != 0x06 {
+			violate("correspondence", "scenario-incomplete", fmt.Sprintf("secs1: the contending master's block was answered %#02x", ans), replay)
+		}
+		select {
+		case <-e.entered:
+		case <-time.After(5 * time.Second):
+			violate("correspondence", "scenario-incomplete", "secs1: the handler of the message received during the contention yield was never entered", replay)
+		}
+		time.Sleep(20 * time.Millisecond)
+		cmu.Lock()
+		for _, cl := range calls {
+			if cl.Kind == "s" && cl.done {
+				violate("correspondence", "scenario-incomplete", fmt.Sprintf("secs1: synchronous call %d returned (%s) before the generation ended", cl.Idx, cl.Outcome), replay)
+			}
+		}
+		cmu.Unlock()
 	}
 	trigger := time.Now()
 	closeDone := make(chan error, 1)
@@ -256,7 +363,45 @@ func c09RunS1(c *Ctx, sp c09S1Spec) {
 	// bound: nothing a pending send legitimately waits for is longer than the handler (the engine notices a dropped
 	// line only when the handler returns) plus T3; Close must release them at once
 	bound := sp.Handler + 6*time.Second
+	if sp.Point == "afterwrite" {
+		t3 := sp.T3
+		if t3 == 0 {
+			t3 = 4 * time.Second
+		}
+		bound = max(bound, t3+prompt+2*time.Second) // a sender wrongly waiting out T3 is seen returning, not reported as hung
+	}
 	hung := false
+	promptFrom := trigger
+	if sp.Point == "afterwrite" {
+		// the generation ends — and, after a peer drop, is REPLACED — while the sender is held; then it is released
+		if sp.Trigger == "close" {
+			time.Sleep(300 * time.Millisecond)
+		} else {
+			deadline := time.Now().Add(5 * time.Second)
+			for time.Now().Before(deadline) && (e.numGens() < 2 || e.conn.State() != hsms.SelectedState) {
+				time.Sleep(2 * time.Millisecond)
+			}
+			if e.numGens() < 2 || e.conn.State() != hsms.SelectedState {
+				violate("correspondence", "scenario-incomplete", "secs1: no second generation came up within 5 s while the sender was held", replay)
+			}
+		}
+		promptFrom = time.Now()
+		lg.release()
+	}
+	if sp.Point == "yield" {
+		if sp.Trigger == "close" {
+			// the handler returns as soon as every pending send has (or after its full duration)
+			select {
+			case <-fin:
+			case <-time.After(sp.Handler):
+			}
+		} else {
+			// a dropped line is noticed by the engine only once the handler has returned: "promptly" counts from there
+			time.Sleep(sp.Handler / 8)
+			promptFrom = time.Now()
+		}
+		e.releaseHandler()
+	}
 	select {
 	case <-fin:
 	case <-time.After(bound):
@@ -267,7 +412,7 @@ func c09RunS1(c *Ctx, sp c09S1Spec) {
 	cmu.Unlock()
 	for i := range snapshot {
 		if snapshot[i].done {
-			snapshot[i].AfterMs = snapshot[i].ended.Sub(trigger).Milliseconds()
+			snapshot[i].AfterMs = snapshot[i].ended.Sub(promptFrom).Milliseconds()
 		} else {
 			snapshot[i].Outcome = "NEVER-RETURNED"
 		}
@@ -280,7 +425,7 @@ func c09RunS1(c *Ctx, sp c09S1Spec) {
 				stuck = append(stuck, cl.Idx)
 			}
 		}
-		c.Violate("property", "secs1-send-never-returned", fmt.Sprintf("SECS-I: send calls %v were pending (%s) when the generation ended (%s) and had not returned %v later", stuck, sp.Point, sp.Trigger, bound), replay)
+		violate("property", "secs1-send-never-returned", fmt.Sprintf("SECS-I: send calls %v were pending (%s) when the generation ended (%s) and had not returned %v later", stuck, sp.Point, sp.Trigger, bound), replay)
 	}
 	for _, cl := range snapshot {
 		if !cl.done {
@@ -290,11 +435,34 @@ func c09RunS1(c *Ctx, sp c09S1Spec) {
 		switch cl.Outcome {
 		case "closed", "writeerr", "notselected", "timeout", "sent", "ctx":
 		default:
-			c.Violate("property", "cut-call-outcome", fmt.Sprintf("SECS-I: call %d was pending when its generation ended and returned %s (%s)", cl.Idx, cl.Outcome, cl.Err), replay)
+			violate("property", "cut-call-outcome", fmt.Sprintf("SECS-I: call %d was pending when its generation ended and returned %s (%s)", cl.Idx, cl.Outcome, cl.Err), replay)
 		}
 		// a Close() cancels the generation at once: nothing may wait for the handler or for T3
-		if sp.Trigger == "close" && sp.Point != "midblock" && cl.ended.Sub(trigger) > 1500*time.Millisecond {
-			c.Violate("property", "waiter-not-released-promptly", fmt.Sprintf("SECS-I: call %d (%s) returned %v after Close() began", cl.Idx, cl.Outcome, cl.ended.Sub(trigger).Round(time.Millisecond)), replay)
+		if sp.Trigger == "close" && sp.Point != "midblock" && sp.Point != "afterwrite" && cl.ended.Sub(trigger) > prompt {
+			what := "waiter-not-released-promptly"
+			detail := fmt.Sprintf("SECS-I: call %d (%s) returned %v after Close() began", cl.Idx, cl.Outcome, cl.ended.Sub(trigger).Round(time.Millisecond))
+			if sp.Point == "yield" {
+				what = "secs1-send-held-by-inline-handler"
+				detail += fmt.Sprintf(" (bound %v): the send was pending on the line engine, which was running the application handler of a message received during a contention yield for %v; "+
+					"the generation's teardown broadcast must release the Write, not the handler's return", prompt, sp.Handler)
+			}
+			violate("property", what, detail, replay)
+		}
+		if sp.Point == "afterwrite" {
+			lat := cl.ended.Sub(promptFrom)
+			if cl.Idx == 0 && cl.Kind == "s" && cl.Outcome == "timeout" {
+				violate("property", "stale-sender-waited-out-reply-timer", fmt.Sprintf("SECS-I: call 0 was held between its Write and its reply wait while its generation ended (%s); released, it returned the T3 timeout after %v instead of the connection-closed error: its wait was bound to a later generation's lifetime",
+					sp.Trigger, lat.Round(time.Millisecond)), replay)
+			} else if cl.Idx == 0 && cl.Kind == "s" && cl.Outcome != "closed" {
+				violate("property", "stale-sender-outcome", fmt.Sprintf("SECS-I: call 0, held between its Write and its reply wait while its generation ended (%s), returned %s (%s): connection-closed expected", sp.Trigger, cl.Outcome, cl.Err), replay)
+			}
+			if lat > prompt {
+				violate("property", "stale-sender-not-released-promptly", fmt.Sprintf("SECS-I: call %d (%s) returned %v after the held sender of the ended generation was released (bound %v)", cl.Idx, cl.Outcome, lat.Round(time.Millisecond), prompt), replay)
+			}
+		}
+		if sp.Point == "yield" && sp.Trigger != "close" && cl.ended.Sub(promptFrom) > prompt {
+			violate("property", "waiter-not-released-promptly", fmt.Sprintf("SECS-I: call %d (%s) returned %v after the handler that held the line engine had returned on a dropped line (bound %v)",
+				cl.Idx, cl.Outcome, cl.ended.Sub(promptFrom).Round(time.Millisecond), prompt), replay)
 		}
 	}
 	// after a peer drop the connection reconnects: nothing of generation 0 may be transmitted on generation 1
@@ -325,12 +493,19 @@ func c09RunS1(c *Ctx, sp c09S1Spec) {
 			time.Sleep(50 * time.Millisecond)
 			for _, t := range c09S1Tags(g1.peer) {
 				if t >= 0 && int(t) < n {
-					c.Violate("property", "stale-frame-on-later-generation", fmt.Sprintf("SECS-I: the message of call %d, accepted on generation 0, was transmitted on generation 1", t), replay)
+					violate("property", "stale-frame-on-later-generation", fmt.Sprintf("SECS-I: the message of call %d, accepted on generation 0, was transmitted on generation 1", t), replay)
 				}
 			}
+			g1.peer.mu.Lock()
+			for _, w := range g1.peer.received {
+				if len(w) >= 13 && (w[3]&0x7f == 1 || w[3]&0x7f == 2) { // streams 1 / 2 are used by the first wave only
+					violate("property", "stale-frame-on-later-generation", fmt.Sprintf("SECS-I: a block of a first-wave message (header %x), accepted on generation 0, was transmitted on generation 1", w[1:11]), replay)
+				}
+			}
+			g1.peer.mu.Unlock()
 			c.Stat("secs1-second-generation-checked")
 		} else {
-			c.Violate("correspondence", "scenario-incomplete", "secs1: no second generation was dialled within 5 s", replay)
+			violate("correspondence", "scenario-incomplete", "secs1: no second generation was dialled within 5 s", replay)
 		}
 	}
 	if sp.Trigger != "close" || sp.Point == "midblock" {
@@ -339,41 +514,73 @@ func c09RunS1(c *Ctx, sp c09S1Spec) {
 	select {
 	case err := <-closeDone:
 		if errors.Is(err, hsms.ErrCloseTimeout) {
-			c.Violate("property", "close-timeout", "SECS-I: Close returned ErrCloseTimeout: a task of the generation was still parked when the bounded join expired", replay)
+			violate("property", "close-timeout", "SECS-I: Close returned ErrCloseTimeout: a task of the generation was still parked when the bounded join expired", replay)
 		}
 	case <-time.After(12 * time.Second):
-		c.Violate("property", "close-never-returned", "SECS-I: Close did not return within 12 s", replay)
+		violate("property", "close-never-returned", "SECS-I: Close did not return within 12 s", replay)
 	}
+	e.releaseHandler()
 	close(stopServe)
 	for i := 0; i < e.numGens(); i++ {
 		_ = e.gen(i).conn.Close()
 	}
 	serveWG.Wait()
 	c.Count(fmt.Sprintf("secs1|%s|%s|%d|%d", sp.Point, sp.Trigger, sp.Sync, sp.Async), true)
-	if len(c.Res.Samples) < 8 {
+	if len(c.Res.Samples) < 8 && len(viols) == 0 {
 		c.Sample(map[string]any{"scenario": "secs1/" + sp.Name, "calls": snapshot})
 	}
+	return viols
 }
 
 func c09SECS1(c *Ctx) {
 	h := 700 * time.Millisecond
+	hy := 4 * time.Second // far above the 1.5 s "promptly" bound (and above the 3 s close timeout)
 	specs := []c09S1Spec{
 		{Name: "handoff-close", Point: "handoff", Trigger: "close", Handler: h, Sync: 2, Async: 1},
 		{Name: "handoff-peerdrop", Point: "handoff", Trigger: "peerdrop", Handler: h, Sync: 2, Async: 2},
 		{Name: "awaiting-peerdrop", Point: "awaiting", Trigger: "peerdrop", Handler: h, Sync: 2, Async: 0},
 		{Name: "awaiting-close", Point: "awaiting", Trigger: "close", Handler: h, Sync: 1, Async: 0},
 		{Name: "midblock-peerdrop", Point: "midblock", Trigger: "peerdrop", Handler: h, Sync: 2, Async: 1},
+		// host-role contention yield: the handler of the message taken during the yield runs inside the pending send
+		{Name: "yield-close", Point: "yield", Trigger: "close", Handler: hy, Sync: 2, Async: 1, YieldAt: 1},
+		{Name: "yield-close-second-block", Point: "yield", Trigger: "close", Handler: hy, Sync: 1, Async: 0, YieldAt: 2},
+		{Name: "yield-peerdrop", Point: "yield", Trigger: "peerdrop", Handler: hy, Sync: 2, Async: 1, YieldAt: 1},
+		// the generation is replaced while a sender sits between its Write and its reply wait (held by the trace logger)
+		{Name: "afterwrite-peerdrop", Point: "afterwrite", Trigger: "peerdrop", Handler: h, Sync: 2, Async: 0},
+		{Name: "afterwrite-close", Point: "afterwrite", Trigger: "close", Handler: h, Sync: 2, Async: 0},
 	}
 	if c.Thorough() {
 		specs = append(specs,
 			c09S1Spec{Name: "handoff-close-async-first", Point: "handoff", Trigger: "close", Handler: h, Sync: 0, Async: 3},
 			c09S1Spec{Name: "handoff-close-many", Point: "handoff", Trigger: "close", Handler: h, Sync: 6, Async: 4},
-			c09S1Spec{Name: "awaiting-peerdrop-many", Point: "awaiting", Trigger: "peerdrop", Handler: h, Sync: 3, Async: 0})
+			c09S1Spec{Name: "awaiting-peerdrop-many", Point: "awaiting", Trigger: "peerdrop", Handler: h, Sync: 3, Async: 0},
+			c09S1Spec{Name: "yield-close-many", Point: "yield", Trigger: "close", Handler: hy, Sync: 5, Async: 3, YieldAt: 1},
+			c09S1Spec{Name: "yield-close-third-block", Point: "yield", Trigger: "close", Handler: hy, Sync: 2, Async: 1, YieldAt: 3},
+			c09S1Spec{Name: "yield-peerdrop-second-block", Point: "yield", Trigger: "peerdrop", Handler: hy, Sync: 2, Async: 2, YieldAt: 2})
 	}
 	for _, sp := range specs {
 		if routerStop(c) {
 			return
 		}
-		c09RunS1(c, sp)
+		viols := c09RunS1(c, sp)
+		if len(viols) > 0 {
+			// a loaded machine: once more with every duration scaled, and only that result counts
+			c.Stat("secs1-retried-with-scaled-timers")
+			spx := sp
+			spx.Name += "(x3)"
+			spx.Handler *= 3
+			if spx.Bound == 0 {
+				spx.Bound = 1500 * time.Millisecond
+			}
+			spx.Bound *= 3
+			if spx.T3 == 0 {
+				spx.T3 = 4 * time.Second
+			}
+			spx.T3 *= 3
+			viols = c09RunS1(c, spx)
+		}
+		for _, v := range viols {
+			c.Violate(v.kind, v.what, v.detail, v.replay)
+		}
 	}
 }
